@@ -295,6 +295,12 @@ var msgGens = []msgGen{
 		o := &message.QueryOptions{Consistency: primitive.ConsistencyLevelLocalQuorum, PositionalValues: []*primitive.Value{primitive.NewValue(semi(r, 2000+r.Intn(6000)))}}
 		return &message.Query{Query: text(r, 1000+r.Intn(3000)), Options: o}, false
 	}},
+	{"QUERY/compressible", modernV, func(r *mon.Rand, v primitive.ProtocolVersion) (message.Message, bool) {
+		// a body that LZ4/snappy compress a lot, with a ratio that differs from message to message
+		_, val := compressible(r, 300+r.Intn(4000), r.Intn(3))
+		o := &message.QueryOptions{Consistency: primitive.ConsistencyLevelOne, PositionalValues: []*primitive.Value{primitive.NewValue(val)}}
+		return &message.Query{Query: "INSERT INTO t (k, v) VALUES (?, ?)", Options: o}, false
+	}},
 	{"PREPARE", allV, func(r *mon.Rand, v primitive.ProtocolVersion) (message.Message, bool) {
 		p := &message.Prepare{Query: text(r, 20+r.Intn(200))}
 		if (v == v5 || v == dse2) && r.Bool() {
@@ -589,6 +595,32 @@ type segCase struct {
 	s    *segment.Segment
 }
 
+// compressible returns n bytes that LZ4 really compresses, with a ratio that depends on level:
+// 0: one token repeated (ratio > 20), 1: four tokens in random order (≈ 4–8), 2: plain words (≈ 2–3).
+func compressible(r *mon.Rand, n, level int) (string, []byte) {
+	out := make([]byte, 0, n+16)
+	switch level % 3 {
+	case 0:
+		tok := []byte(ident(r) + ";")
+		for len(out) < n {
+			out = append(out, tok...)
+		}
+		return "repeat", out[:n]
+	case 1:
+		toks := []string{ident(r), ident(r), "INSERT INTO ", " VALUES (?, ?, ?) "}
+		for len(out) < n {
+			out = append(out, toks[r.Intn(4)]...)
+		}
+		return "four-tokens", out[:n]
+	default:
+		for len(out) < n {
+			out = append(out, words[r.Intn(len(words))]...)
+			out = append(out, ' ')
+		}
+		return "words", out[:n]
+	}
+}
+
 // genSegment: kind i of goroutine g. Large payloads are rare on purpose (one goroutine in sixteen has a
 // maximum-size segment): their cost is memory traffic inside bytes.Buffer, not codec logic.
 func genSegment(r *mon.Rand, i, g int) segCase {
@@ -600,16 +632,16 @@ func genSegment(r *mon.Rand, i, g int) segCase {
 	case 1:
 		data, kind = r.Bytes(1+r.Intn(64)), "random-small"
 	case 2:
-		data, kind = r.Bytes(512+r.Intn(2048)), "random-2k"
+		kind, data = compressible(r, 512+r.Intn(2048), g)
 	case 3:
-		data, kind = []byte(text(r, 256+r.Intn(1024))), "text-1k"
+		kind, data = compressible(r, 256+r.Intn(1024), g+1)
 	case 4:
 		data, kind = semi(r, 1024+r.Intn(8000)), "semi-8k"
 	default:
 		if g%16 == 0 {
 			data, kind = semi(r, segment.MaxPayloadLength-r.Intn(100)), "semi-max"
 		} else {
-			data, kind = []byte(text(r, 64)+string(semi(r, 300))), "mixed-small"
+			kind, data = compressible(r, 300+r.Intn(3000), g+2)
 		}
 	}
 	sc := r.Bool()
